@@ -85,6 +85,33 @@ def multibyte_variant(src: str, sel: int) -> str | None:
     return new
 
 
+# G-delim: computed locations are found by searching for a delimiter after / before children; these programs put the same delimiter
+# characters INSIDE the neighbouring children (parenthesised bounds of type parameters, parenthesised defaults, decorators, strings and
+# comments that contain brackets), at every position of the child list, so that a search that starts from the wrong child lands on them
+DELIM_PROGRAMS = (
+    'def f[T, U: (int, str)](a, b=1): pass',
+    'def f[T: (int, str), U: (bytes, bytearray), *V, **W](a, /, b=(1, 2), *c, d=(3), **e) -> (r): pass',
+    'def f[T: (int)](a): pass\ndef g[T, U, V: (x, y)](): pass\ndef h[T: (x, y), U, V](*, k): pass',
+    'async def f[T, U: (list[(int)], (str))](): pass',
+    'class C[T, U: (int, str)](B, (D), m=(M)): pass',
+    'class C[T: (int, str)]: pass\nclass D[T, U: (A)](): pass\nclass E[T: (A), U]((B)): pass',
+    'type A[T, U: (int, str)] = (dict[T, (U)])\ntype B[T: (x)] = (T)',
+    'def f[T: "("](a="(", b=")") -> ")": pass\nclass C[T: "]("](B, m="(("): pass',
+    'def f[T,  # [ (\n      U: (int,  # ) ]\n          str)](  # (\n    a,  # )\n): pass',
+    '@(d)\n@d(x)(y)\n@(a.b)(c)[0]\ndef f(a=(1), *b, c=(2)): pass\n@(e)\nclass G((H)): pass',
+    'r = lambda a=(1), *b, c=((2)): (a)\nr = lambda: (0)\nr = lambda *, k=(1): k',
+    'f((a), (b))((c))\nf(x)(y)[z](w)\nf((a for a in b))\nf(a for a in (b))\n(f)((a))\nf[(a)](b)\nf(")")("(")\nf(  # (\n)',
+    'a[(b)][(c)]\n(a[b])[c]\na[b[c]][d]\na[(b):(c), (d)]\na["]"][")"]\na[[b]][[c][0]]',
+    'with (a) as b, (c): pass\nwith ((a) as b, (c) as (d)): pass\nwith (a), (b): pass\nwith ((a), (b)): pass\nwith (a)(b) as c: pass\nwith f(")") as b, g("("): pass',
+    'from a import (b as c, d)\nfrom e import (f)\nfrom g import (h,  # )\n    i)',
+    'match (x):\n    case C((a), b=(c)): pass\n    case a.b((c)): pass\n    case (C()): pass\n    case (C(a)) | (D(b)): pass\n    case {"k": (a), **rest}: pass\n    case {"(": C(), **r}: pass\n    case ((a)) if (g): (y)',
+    'r = [(a) for (a) in (b) if (c) for d in (e)]\nr = {(k): (v) for (k), (v) in (d) if (k)}\nr = ((a) for a in (b))\nr = [a for a in b if ")"]',
+    'r = {(a): (b), **(c)}\nr = {**(a), (b): (c)}\nr = {"}": "{", **d}',
+    'r = (a) if (b) else (c)\nr = (a) < (b) <= (c)\nr = (a) and (b) or (c)\nr = -(a) ** (b)\nr = (yield)\nr = ((yield (a)))',
+    'try: pass\nexcept (E) as e: pass\nexcept ((A), (B)): pass\ntry: pass\nexcept* (E): pass',
+)
+
+
 def enumerate_cases(tier, shard, nshards, seed):
     files = gen.real_files()
     n = params(tier)['files']
@@ -100,6 +127,11 @@ def enumerate_cases(tier, shard, nshards, seed):
             yield {'src': w, 'rsel': seed * 31 + k, 'mb': k}
 
     for j, src in enumerate(gen.SYN_PROGRAMS):
+        if j % nshards == shard:
+            yield {'src': src, 'rsel': seed + j}
+            yield {'src': src, 'rsel': seed + j, 'mb': j}
+
+    for j, src in enumerate(DELIM_PROGRAMS):
         if j % nshards == shard:
             yield {'src': src, 'rsel': seed + j}
             yield {'src': src, 'rsel': seed + j, 'mb': j}
